@@ -151,6 +151,9 @@ pub fn gen_noise(seed: u64, n: usize) -> Vec<Scenario> {
     let mut rng = StdRng::seed_from_u64(seed ^ 0x5eed_0003);
     for sc in &mut v {
         sc.noise.foreign_pct = *pick(&mut rng, &[20, 50]);
+        // the other tracer of the pair may be the one the command line gave identifier 0 (pid % 65535 = 0, or
+        // pid + i wrapping): its responses carry identifier zero
+        sc.noise.foreign_zero_id = sc.proto == "icmp" && rng.random_range(0..3) == 0;
         sc.noise.never_pct = *pick(&mut rng, &[0, 0, 20]);
         sc.noise.garbage_pct = *pick(&mut rng, &[0, 10]);
         sc.net.dup_pct = *pick(&mut rng, &[10, 30]);
